@@ -748,7 +748,7 @@ func run(c *vf.Ctx) {
 	// the monitors allocate heavily with small node caches (every node access
 	// deserialises a ~5 KB node); a lazier GC keeps 14 workers from thrashing
 	defer debug.SetGCPercent(debug.SetGCPercent(400))
-	n := c.N(34, 700)
+	n := c.N(44, 700)
 	caches := []int{10000, 0, 64, 1, 10000, 64}
 	var agg struct {
 		ops      [bpgen.NumOpKinds]atomic.Int64
